@@ -26,6 +26,9 @@ BROKEN = {
     "emptyfile": {"a.go": ""},
     "onlytests": {"a_test.go": "package onlytests\n\nimport \"testing\"\n\nfunc TestX(t *testing.T) { var x int = \"s\"; _ = x }\n"},
     "dupdecl": {"a.go": "package dupdecl\n\nfunc F() {}\nfunc F() {}\n\ntype T struct{}\nfunc (T) M() {}\nfunc (T) M() {}\n"},
+    "badclause": {"a.go": "packag badclause\n\nfunc F(s string) bool { return len(s) >= 0 }\n"},
+    "badimportpath": {"a.go": "package badimportpath\n\nimport \"bad path!\"\n\nfunc F(s string) bool { return len(s) >= 0 }\n",
+                      "b.go": "package badimportpath\n\nimport x \"bad path!\"\n\nvar _ = x.Y\n"},
     "cycle": {"a.go": "package cycle\n\ntype A struct{ b B }\ntype B struct{ a A }\n\nfunc F(a A) A { return a }\nvar x = y\nvar y = x\n"},
 }
 
@@ -57,13 +60,16 @@ def run(tier):
         (["-enable=nosuchChecker"], ["empty"]), (["-enable="], ["empty"]), (["-enable=#nosuchtag"], ["empty"]), (["-enableAll", "-disable=#diagnostic,#style,#performance"], ["empty"]),
         (["-@hugeParam.sizeThreshold=abc"], ["abc", "sizeThreshold", "invalid"]), (["-@captLocal.paramsOnly=maybe"], ["maybe", "paramsOnly", "invalid"]),
         (["-exitCode=x"], ["x", "exitCode", "invalid"]), (["-nosuchflag"], ["nosuchflag", "not defined"]),
+        (["-go=-1.20"], ["version"]), (["-go=1.-5"], ["version"]), (["-go=+1.+18"], ["version"]), (["-go=0.13"], ["version"]), (["-go=go1"], ["version"]), (["-go=1.21.3"], ["version"]),
+        (["-concurrency=0"], ["concurrency"]), (["-concurrency=-1"], ["concurrency"]), (["-exitCode=256"], ["exitCode"]), (["-exitCode=-1"], ["exitCode"]),
+        (rg_on + ["-@ruleguard.rules=[a"], ["pattern", "[a"]), (rg_on + ["-@ruleguard.rules=rules/ok.go,rules/[z-a].go"], ["pattern", "[z-a]"]),
     ]
 
     def to_analyzer(args):
         out = []
         for a in args:
             a = a.replace("-enableAll", "-enable-all")
-            if a.startswith("-exitCode"):
+            if a.startswith("-exitCode") or a.startswith("-concurrency"):
                 return None
             out.append(a)
         if "-enable=ruleguard" in out:
@@ -101,7 +107,7 @@ def run(tier):
 
     def one(job):
         kind, b, argv, words, n, label = job
-        rc, so, se = vlib.sh([os.path.join(bins, b)] + argv, cwd=ws, timeout=600)
+        rc, so, se = vlib.sh([os.path.join(bins, b)] + argv, cwd=ws, timeout=600 if kind == "broken" else 180)
         return job, rc, so, se
 
     by_conf = {}
@@ -133,6 +139,10 @@ def run(tier):
             # broken target: any exit status, but no crash (checked above) and, for the analysis
             # driver and the CLI alike, no silent success on a package that cannot be loaded at all
             # (a target that does not exist at all is outside the property's text: only recorded)
+            if rc == 0 and not DIAG_RE.search(txt) and "./broken/" + label in argv and label in ("badclause", "badimportpath"):
+                # neither a load error nor a single diagnostic, although these two packages contain a
+                # `len(s) >= 0` that is reported whenever the package is analysed at all
+                res.add_violation("broken-target-silently-ignored:%s:%s" % (fe, label), "%s %s: no message, no diagnostic, exit status 0" % (b, " ".join(argv)), case)
             if label in ("nosuchdir", "nosuchpath", "nopackages"):
                 res.notes.append("observation: %s %s -> exit status %d" % (b, " ".join(argv), rc))
     for (b, label), obs in by_conf.items():
